@@ -285,6 +285,15 @@ package sqlite3
 //@   ensures local-success-means-data-and-tracker-were-both-written-in-this-transaction: err == nil ==> (execs == 1 && xerr == nil && tracked == 1 && terr == nil)
 //@   ensures local-a-failed-statement-fails-the-transaction: (execs == 1 && xerr != nil) ==> err == xerr
 //@   ensures local-a-failed-tracker-update-fails-the-transaction: tracked == 1 ==> err == terr
+//@   ghost rowsRead bool = false
+//@   ghost rows int64 = 0
+//@   ghost rerr error = nil
+//@   at after call RowsAffected#*: ghost rows := callresult0
+//@   at after call RowsAffected#*: ghost rerr := callresult1
+//@   at after call RowsAffected#*: ghost rowsRead := true
+//@   at call updateKeyTracker#*: assert the-tracker-is-touched-only-after-the-statement-changed-a-row: rowsRead && rerr == nil && rows != 0
+//@   ensures local-a-statement-that-changed-no-row-is-the-documented-refusal: (rowsRead && rerr == nil && rows == 0) ==> err == chord.ErrKVPrefixConflict
+//@   ensures local-an-unreadable-row-count-fails-the-transaction: (rowsRead && rerr != nil) ==> err == rerr
 //@   ensures local-errors-come-from-the-statements-or-the-conflict-rule: err == nil || err == xerr || err == terr || err == chord.ErrKVPrefixConflict || tracked == 0
 
 //@ func (s *SqliteKV) PrefixRemove(ctx context.Context, prefix []byte, child []byte) (err error)
@@ -357,6 +366,15 @@ package sqlite3
 //@   ensures local-success-means-data-and-tracker-were-both-written-in-this-transaction: err == nil ==> (execs == 1 && xerr == nil && tracked == 1 && terr == nil)
 //@   ensures local-a-failed-statement-fails-the-transaction: (execs == 1 && xerr != nil) ==> err == xerr
 //@   ensures local-a-failed-tracker-update-fails-the-transaction: tracked == 1 ==> err == terr
+//@   ghost rowsRead bool = false
+//@   ghost rows int64 = 0
+//@   ghost rerr error = nil
+//@   at after call RowsAffected#*: ghost rows := callresult0
+//@   at after call RowsAffected#*: ghost rerr := callresult1
+//@   at after call RowsAffected#*: ghost rowsRead := true
+//@   at call updateKeyTracker#*: assert the-tracker-is-touched-only-after-the-statement-changed-a-row: rowsRead && rerr == nil && rows != 0
+//@   ensures local-a-statement-that-changed-no-row-is-the-documented-refusal: (rowsRead && rerr == nil && rows == 0) ==> err == chord.ErrKVLeaseConflict
+//@   ensures local-an-unreadable-row-count-fails-the-transaction: (rowsRead && rerr != nil) ==> err == rerr
 //@   ensures local-errors-come-from-the-statements-or-the-conflict-rule: err == nil || err == xerr || err == terr || err == chord.ErrKVLeaseConflict || tracked == 0
 
 //@ func (s *SqliteKV) Renew(ctx context.Context, lease []byte, ttl time.Duration, prevToken uint64) (tok uint64, err error)
@@ -394,6 +412,15 @@ package sqlite3
 //@   ensures local-success-means-data-and-tracker-were-both-written-in-this-transaction: err == nil ==> (execs == 1 && xerr == nil && tracked == 1 && terr == nil)
 //@   ensures local-a-failed-statement-fails-the-transaction: (execs == 1 && xerr != nil) ==> err == xerr
 //@   ensures local-a-failed-tracker-update-fails-the-transaction: tracked == 1 ==> err == terr
+//@   ghost rowsRead bool = false
+//@   ghost rows int64 = 0
+//@   ghost rerr error = nil
+//@   at after call RowsAffected#*: ghost rows := callresult0
+//@   at after call RowsAffected#*: ghost rerr := callresult1
+//@   at after call RowsAffected#*: ghost rowsRead := true
+//@   at call updateKeyTracker#*: assert the-tracker-is-touched-only-after-the-statement-changed-a-row: rowsRead && rerr == nil && rows != 0
+//@   ensures local-a-statement-that-changed-no-row-is-the-documented-refusal: (rowsRead && rerr == nil && rows == 0) ==> err == chord.ErrKVLeaseExpired
+//@   ensures local-an-unreadable-row-count-fails-the-transaction: (rowsRead && rerr != nil) ==> err == rerr
 //@   ensures local-errors-come-from-the-statements-or-the-conflict-rule: err == nil || err == xerr || err == terr || err == chord.ErrKVLeaseExpired || tracked == 0
 
 //@ func (s *SqliteKV) Release(ctx context.Context, lease []byte, token uint64) (err error)
@@ -430,6 +457,15 @@ package sqlite3
 //@   ensures local-success-means-data-and-tracker-were-both-written-in-this-transaction: err == nil ==> (execs == 1 && xerr == nil && tracked == 1 && terr == nil)
 //@   ensures local-a-failed-statement-fails-the-transaction: (execs == 1 && xerr != nil) ==> err == xerr
 //@   ensures local-a-failed-tracker-update-fails-the-transaction: tracked == 1 ==> err == terr
+//@   ghost rowsRead bool = false
+//@   ghost rows int64 = 0
+//@   ghost rerr error = nil
+//@   at after call RowsAffected#*: ghost rows := callresult0
+//@   at after call RowsAffected#*: ghost rerr := callresult1
+//@   at after call RowsAffected#*: ghost rowsRead := true
+//@   at call updateKeyTracker#*: assert the-tracker-is-touched-only-after-the-statement-changed-a-row: rowsRead && rerr == nil && rows != 0
+//@   ensures local-a-statement-that-changed-no-row-is-the-documented-refusal: (rowsRead && rerr == nil && rows == 0) ==> err == chord.ErrKVLeaseExpired
+//@   ensures local-an-unreadable-row-count-fails-the-transaction: (rowsRead && rerr != nil) ==> err == rerr
 //@   ensures local-errors-come-from-the-statements-or-the-conflict-rule: err == nil || err == xerr || err == terr || err == chord.ErrKVLeaseExpired || tracked == 0
 
 //@ func (s *SqliteKV) Import(ctx context.Context, keys [][]byte, values []*protocol.KVTransfer) (err error)
